@@ -21,11 +21,13 @@ import (
 // return_call_indirect, and a host-side lookup.
 
 // twinT: exports the table, a shared mutable global and a counter function.
-func twinT() []byte {
+func twinT(base int32) []byte {
 	m := &wasmb.Module{}
 	m.Tables = []wasmb.Table{{Elem: wasmb.FuncRef, Lim: wasmb.Limits{Min: 6, Max: 6, HasMax: true}}}
-	m.Globals = []wasmb.Global{{Type: wasmb.I32, Mut: true, Init: wasmb.ConstI32(0)}}
-	m.Exports = append(m.Exports, wasmb.Export{Name: "tab", Kind: wasmb.KindTable, Idx: 0}, wasmb.Export{Name: "shared", Kind: wasmb.KindGlobal, Idx: 0})
+	// "base": an immutable global the importers use as the OFFSET of their active segments
+	m.Globals = []wasmb.Global{{Type: wasmb.I32, Mut: true, Init: wasmb.ConstI32(0)}, {Type: wasmb.I32, Mut: false, Init: wasmb.ConstI32(base)}}
+	m.Exports = append(m.Exports, wasmb.Export{Name: "tab", Kind: wasmb.KindTable, Idx: 0}, wasmb.Export{Name: "shared", Kind: wasmb.KindGlobal, Idx: 0},
+		wasmb.Export{Name: "base", Kind: wasmb.KindGlobal, Idx: 1})
 	i32 := []wasmb.ValType{wasmb.I32}
 	m.AddFunc(nil, i32, nil, (&wasmb.Code{}).GlobalGet(0).B, "rd_shared")
 	return m.Encode()
@@ -45,20 +47,26 @@ func twinM() []byte {
 	two := []wasmb.ValType{wasmb.I32, wasmb.I32}
 	m.Imports = append(m.Imports,
 		wasmb.Import{Module: "t", Name: "tab", Kind: wasmb.KindTable, Table: wasmb.Table{Elem: wasmb.FuncRef, Lim: wasmb.Limits{Min: 6, Max: 6, HasMax: true}}},
-		wasmb.Import{Module: "t", Name: "shared", Kind: wasmb.KindGlobal, GlobalType: wasmb.I32, GlobalMut: true})
-	m.Globals = []wasmb.Global{{Type: wasmb.I32, Mut: true, Init: wasmb.ConstI32(0)}} // own = global 1
+		wasmb.Import{Module: "t", Name: "shared", Kind: wasmb.KindGlobal, GlobalType: wasmb.I32, GlobalMut: true},
+		wasmb.Import{Module: "t", Name: "base", Kind: wasmb.KindGlobal, GlobalType: wasmb.I32})
+	m.Globals = []wasmb.Global{{Type: wasmb.I32, Mut: true, Init: wasmb.ConstI32(0)}} // own = global 2
 	m.Mem = &wasmb.Limits{Min: 1, Max: 1, HasMax: true}
 	ty := m.AddType(i32, i32)
 	c := func() *wasmb.Code { return &wasmb.Code{} }
 	id := m.AddFunc(i32, i32, nil, c().
-		I32Const(0).I32Const(0).I32Load(0).I32Const(1).I32Add().I32Store(0).
+		I32Const(0).I32Const(0).I32Load(16).I32Const(1).I32Add().I32Store(16).
 		GlobalGet(0).I32Const(1).I32Add().GlobalSet(0).
-		GlobalGet(1).I32Const(1000).I32Mul().LocalGet(0).I32Add().B, "id")
-	m.AddFunc(i32, nil, nil, c().LocalGet(0).GlobalSet(1).B, "set_own")
+		GlobalGet(2).I32Const(1000).I32Mul().LocalGet(0).I32Add().B, "id")
+	m.AddFunc(i32, nil, nil, c().LocalGet(0).GlobalSet(2).B, "set_own")
 	m.AddFunc(i32, nil, nil, c().LocalGet(0).RefFunc(id).TableSet(0).B, "put")
-	m.AddFunc(two, i32, nil, c().LocalGet(1).LocalGet(0).CallIndirect(ty, 0).GlobalGet(1).I32Const(1000000).I32Mul().I32Add().B, "call")
+	m.AddFunc(two, i32, nil, c().LocalGet(1).LocalGet(0).CallIndirect(ty, 0).GlobalGet(2).I32Const(1000000).I32Mul().I32Add().B, "call")
 	m.AddFunc(two, i32, nil, c().LocalGet(1).LocalGet(0).ReturnCallIndirect(ty, 0).B, "tcall")
-	m.AddFunc(nil, i32, nil, c().I32Const(0).I32Load(0).B, "calls")
+	m.AddFunc(nil, i32, nil, c().I32Const(0).I32Load(16).B, "calls")
+	// active segments whose offset is the IMPORTED global: id goes into the table at slot base, a marker
+	// byte into the private memory at address base (the call counter lives at 16) -- per instance, whatever another instance's exporter said
+	m.Elems = []wasmb.Elem{{Mode: 0, Offset: wasmb.ConstGlobalGet(1), Funcs: []uint32{id}}}
+	m.Datas = []wasmb.Data{{Offset: wasmb.ConstGlobalGet(1), Bytes: []byte{0x5A}}}
+	m.AddFunc(i32, i32, nil, c().LocalGet(0).I32Load8U(0).B, "peek8")
 	return m.Encode()
 }
 
@@ -72,7 +80,8 @@ func runTwins(t *tape.Tape, cfg sim.Config) (res sim.Result) {
 	}
 	rt := wazero.NewRuntimeWithConfig(ctx, rc.WithCoreFeatures(api.CoreFeaturesV2|experimental.CoreFeaturesTailCall))
 	defer rt.Close(ctx)
-	tmod, err := rt.InstantiateWithConfig(ctx, twinT(), wazero.NewModuleConfig().WithName("t"))
+	bases := [2]int32{1 + int32(t.Choose(2)), 3 + int32(t.Choose(2))}
+	tmod, err := rt.InstantiateWithConfig(ctx, twinT(bases[0]), wazero.NewModuleConfig().WithName("t"))
 	if err != nil {
 		panic(err)
 	}
@@ -86,7 +95,7 @@ func runTwins(t *tape.Tape, cfg sim.Config) (res sim.Result) {
 	tmods := []api.Module{tmod}
 	var t2 api.Module
 	if t.Chance(1, 3) {
-		tcm, err := rt.CompileModule(ctx, twinT())
+		tcm, err := rt.CompileModule(ctx, twinT(bases[1]))
 		if err != nil {
 			panic(err)
 		}
@@ -122,6 +131,20 @@ func runTwins(t *tape.Tape, cfg sim.Config) (res sim.Result) {
 	}
 	slotsOf := [2][6]int{{-1, -1, -1, -1, -1, -1}, {-1, -1, -1, -1, -1, -1}}
 	sharedOf := [2]int32{}
+	for i := range mods {
+		// instantiation order: the later instance's element segment wins the slot
+		slotsOf[tOf[i]][bases[tOf[i]]] = i
+		for _, b := range []int32{bases[0], bases[1]} {
+			want := uint64(0)
+			if b == bases[tOf[i]] {
+				want = 0x5A
+			}
+			if got, err := mods[i].ExportedFunction("peek8").Call(ctx, uint64(b)); err != nil || got[0] != want {
+				res.Fail("view-diverged", "m%d is linked to table module %d whose global base = %d: byte %d of its memory is %v %v, expected %#x (active data segment at offset global.get base)", i, tOf[i], bases[tOf[i]], b, got, errLine(err), want)
+				return
+			}
+		}
+	}
 	var shape []string
 	crossTail := 0
 	for step, nsteps := 0, t.Range(6, 24); step < nsteps && res.Violation == nil; step++ {
